@@ -18,7 +18,7 @@ class Assembly(ElementBase, abc.ABC):
 
     @property
     def center(self):
-        return np.average([shape.center for shape in self.shapes])
+        return np.average([shape.center for shape in self.shapes], axis=0)
 
     @property
     def operations(self) -> List[Operation]:
